@@ -16,11 +16,11 @@ echo "== demo with change"
 echo "rc=$rc1"; tail -5 /tmp/confirm_${name}_demo1.out
 echo "== tests with change"
 /venv/bin/python -m pytest -q -p no:cacheprovider -n 4 --timeout=900 tests 2>&1 | tail -3 > /tmp/confirm_${name}_tests.out; cat /tmp/confirm_${name}_tests.out
-git stash -q -- adcgen
+git apply -R seed/patch.diff
 echo "== demo without change"
 /venv/bin/python seed/demo.py >/tmp/confirm_${name}_demo0.out 2>&1; rc0=$?
 echo "rc=$rc0"; tail -3 /tmp/confirm_${name}_demo0.out
-git stash pop -q
+git apply seed/patch.diff
 tests_ok=0; grep -q "127 passed" /tmp/confirm_${name}_tests.out && ! grep -q failed /tmp/confirm_${name}_tests.out && tests_ok=1
 if [ $rc1 -ne 0 ] && [ $rc0 -eq 0 ] && [ $tests_ok -eq 1 ]; then
   mkdir -p /verif/seeded/$name
